@@ -45,8 +45,9 @@ Lemma gc_range_is_ephemeral k : is_ephemeral_kind k = ((KVWrite.gc_kind_lo <=? k
 Proof. reflexivity. Qed.
 
 (* WriterThread.run / add_event *)
-Lemma writer_ops_agree : KVWrite.writer_ops = [pys "add"; pys "del"; pys "reindex"; pys "bulk_update"] /\ KVWrite.one_txn_per_task = true.
-Proof. split; reflexivity. Qed.
+Lemma writer_ops_agree : KVWrite.writer_ops = [pys "add"; pys "del"; pys "reindex"; pys "bulk_update"] /\ KVWrite.one_txn_per_task = true /\
+  KVWrite.forgets_in_flight_after_add = true.
+Proof. repeat split; reflexivity. Qed.
 Lemma add_event_checks_agree :
-  KVWrite.add_event_checks = [pys "validate"; pys "ephemeral"; pys "storable"; pys "duplicate"; pys "queue"; pys "broadcast"].
+  KVWrite.add_event_checks = [pys "validate"; pys "ephemeral"; pys "storable"; pys "in_flight"; pys "stored"; pys "register"; pys "queue"; pys "broadcast"].
 Proof. reflexivity. Qed.
